@@ -217,6 +217,9 @@ type concrete struct {
 	aRecs   [][4]byte
 	edeCode uint16
 	preEDE  bool
+	// preOtherEDE: an EDE option of an unrelated class (the downstream may stack several, RFC 8914 s2) stands in
+	// front of the one the case is about: the class is a property of the message, not of its first EDE
+	preOtherEDE bool
 }
 
 func (r *decRun) concretise(c dCase) *concrete {
@@ -307,6 +310,7 @@ func (r *decRun) concretise(c dCase) *concrete {
 		x.edeCode = otherEDE[rng.Intn(len(otherEDE))]
 	}
 	x.preEDE = rng.Intn(3) == 0
+	x.preOtherEDE = (c.Down.Ede == "dnssec" || c.Down.Ede == "cached") && rng.Intn(3) == 0
 	return x
 }
 
@@ -386,6 +390,9 @@ func (x *concrete) downstream(_ context.Context, req *dns.Msg) *dns.Msg {
 		if d.Ede != "none" {
 			if x.preEDE {
 				opt.Option = append(opt.Option, &dns.EDNS0_NSID{Code: dns.EDNS0NSID, Nsid: "76657269"})
+			}
+			if x.preOtherEDE {
+				opt.Option = append(opt.Option, &dns.EDNS0_EDE{InfoCode: []uint16{dns.ExtendedErrorCodeOther, dns.ExtendedErrorCodeNoReachableAuthority, dns.ExtendedErrorCodeNetworkError}[int(x.edeCode)%3], ExtraText: "earlier"})
 			}
 			opt.Option = append(opt.Option, &dns.EDNS0_EDE{InfoCode: x.edeCode, ExtraText: "verif"})
 		}
